@@ -86,8 +86,42 @@ def _cmp(ctx, clause, got, want, vscale, L, info):
               lambda: f"got {float(got)!r}, true volume {want!r}, difference {abs(float(got) - want):.3g} > tol {tol:.3g} ({info})")
 
 
+def _with_flags(strategy):
+    """Adds to every case: objects of user subclasses of the primitives (a `Soma(VolSphere)`), and a session in which the
+    library has just refused a few volumes it has no closed form for (the caller caught the errors)."""
+    def wrapped(tier):
+        return st.tuples(strategy(tier), st.integers(0, 3), st.integers(0, 3)).map(
+            lambda v: dict(v[0], subclass=v[1] == 0, refused_before=v[2] == 0))
+    return wrapped
+
+
+def _classes(case, ctx):
+    from swcgeom.utils import VolFrustumCone, VolSphere
+
+    Sph, Fru = VolSphere, VolFrustumCone
+    if case.get("subclass"):
+        class Soma(VolSphere):
+            """a user's own kind of sphere"""
+
+        class Segment(VolFrustumCone):
+            """a user's own kind of frustum"""
+
+        Sph, Fru = Soma, Segment
+        ctx.cls("objects-of-user-subclasses")
+    if case.get("refused_before"):
+        for r in (150.0, 40.0, 150.0):
+            try:
+                VolSphere((0.0, 0.0, 0.0), r).union(VolFrustumCone((5.0 * r, 0.0, 0.0), 3.0, (5.0 * r + 20.0, 1.0, 0.0), 2.0)).get_volume()
+            except Exception:  # noqa - no closed form for a sphere and a frustum that do not share an end: refused (or sampled)
+                pass
+        ctx.cls("after-refused-volume-requests")
+    return Sph, Fru
+
+
 def run_ss(case, ctx):
     from swcgeom.utils import VolSphere
+
+    VolSphere, _ = _classes(case, ctx)
 
     r1, r2, d = case["r1"], case["r2"], case["d"]
     u, c = _axis(case["pose"])
@@ -185,7 +219,7 @@ def sf_strategy(draw, tier):
 
 
 def run_sf(case, ctx):
-    from swcgeom.utils import VolFrustumCone, VolSphere
+    VolSphere, VolFrustumCone = _classes(case, ctx)
 
     r1, r2, h, end = case["r1"], case["r2"], case["h"], case["end"]
     u, c = _axis(case["pose"])
@@ -218,12 +252,13 @@ def run_sf(case, ctx):
 
 
 SUBCHECKS = [
-    Sub("sphere_sphere", ss_strategy, run_ss, quick=8000, thorough=120000, shards_quick=4,
+    Sub("sphere_sphere", _with_flags(ss_strategy), run_ss, quick=8000, thorough=120000, shards_quick=4,
         required={"ss:partial-overlap": 500, "ss:near-coincident": 50, "centres-from-one-reused-buffer": 300, "ss:ext-tangent": 50, "ss:int-tangent": 50, "ss:concentric": 50,
-                  "ss:nested": 50, "ss:disjoint": 50, "ss:equal-radii": 50}),
+                  "ss:nested": 50, "ss:disjoint": 50, "ss:equal-radii": 50, "objects-of-user-subclasses": 500}),
     Sub("cap_frustum", cap_strategy, run_cap, quick=3000, thorough=40000, shards_quick=2,
         required={"cap:h=0": 30, "cap:h=r": 30, "cap:h=2r": 30, "cap:general": 300, "frustum:cylinder": 50}),
-    Sub("sphere_frustum", sf_strategy, run_sf, quick=12000, thorough=200000, shards_quick=4,
+    Sub("sphere_frustum", _with_flags(sf_strategy), run_sf, quick=12000, thorough=200000, shards_quick=4,
         required={"sf:end-c1": 500, "sf:end-c2": 500, "sf:cone-inside-sphere": 100, "sf:cone-leaves-sphere": 300,
-                  "sf:wide": 300, "sf:h<r": 300, "sf:h>=r": 300, "sf:cylinder": 50, "sf:h=r": 50}),
+                  "sf:wide": 300, "sf:h<r": 300, "sf:h>=r": 300, "sf:cylinder": 50, "sf:h=r": 50,
+                  "objects-of-user-subclasses": 1000, "after-refused-volume-requests": 1000}),
 ]
